@@ -4,7 +4,8 @@
 //   60 p_lock  COCLS_VERIF_POINT("p_lock") before every acquisition of the pool mutex (enqueue, worker, stop)
 //   61 p_wait  a worker sleeping in _cond.wait; enabled when a notification token is available
 //   62 p_join  stop() joining a worker; enabled when that worker has left worker()
-//    9 xwait   client 0 before ~thread_pool (object lifetime rule, see PoolDefs.v xwait_ok)
+//   63 p_peek  thread_pool::current's await_ready (reads _exit without the lock)
+//    9 xwait   client 0 before ~thread_pool: every other client thread has returned (PoolDefs.v xwait_ok)
 // The pool creates its own threads and blocks in std::condition_variable / std::thread::join.  Instead of
 // describing these calls with hooks, the harness *observes* them: while thread_pool.h is compiled the names
 // std::condition_variable and std::thread are mapped to std::pool_cv / std::pool_thread below, which hand the
@@ -25,6 +26,8 @@ struct Thr {
     State state = NotStarted;
     int point = 0;
     std::function<bool()> en;
+    bool cv_sleep = false;   // inside pool_cv::wait
+    bool cv_flag = false;    // flagged by a notify_all while sleeping
 };
 
 struct Ctl {
@@ -51,6 +54,7 @@ static Ctl G;   // never destroyed before exit: detached workers may still be le
 static thread_local int t_id = -1;
 
 static void check_lock_free();
+static void after_wake();
 
 static void yield(State st, int point, std::function<bool()> en) {
     check_lock_free();
@@ -87,16 +91,29 @@ namespace std {
 
 class pool_cv {
 public:
+    // notify_all flags the threads sleeping now; notify_one adds an anonymous token (PoolDefs.v)
     void notify_one() noexcept {
-        if (pctl::G.tokens < pctl::G.sleepers) pctl::G.tokens++;
+        long flagged = 0;
+        for (auto &t : pctl::G.ths) flagged += t->cv_sleep && t->cv_flag;
+        if (pctl::G.tokens + flagged < pctl::G.sleepers) pctl::G.tokens++;
     }
-    void notify_all() noexcept { pctl::G.tokens = pctl::G.sleepers; }
+    void notify_all() noexcept {
+        pctl::G.tokens = 0;
+        for (auto &t : pctl::G.ths)
+            if (t->cv_sleep) t->cv_flag = true;
+    }
     template <typename L>
     void wait(L &lk) {
         lk.unlock();
+        pctl::Thr *me = pctl::G.ths[pctl::t_id].get();
         pctl::G.sleepers++;
-        pctl::yield(pctl::Blocked, 61, [] { return pctl::G.tokens > 0; });
-        pctl::G.tokens--;
+        me->cv_sleep = true;
+        me->cv_flag = false;
+        pctl::yield(pctl::Blocked, 61, [me] { return pctl::G.tokens > 0 || me->cv_flag; });
+        pctl::after_wake();
+        if (me->cv_flag) me->cv_flag = false;
+        else pctl::G.tokens--;
+        me->cv_sleep = false;
         pctl::G.sleepers--;
         lk.lock();
     }
@@ -150,9 +167,15 @@ private:
 using namespace cocls;
 
 // ---- scenario state ----
+struct Rec;
+struct Act {
+    int what;   // 0 submit, 1 stop, 2 query, 3 co_await current()
+    long arg;   // query number
+    Rec *rec;   // submitted closure / hop continuation
+};
 struct Rec {
-    long label = 0, kind = 0, body = 0, bkind = 0;
-    Rec *nested = nullptr;
+    long label = 0, kind = 0;
+    std::vector<Act> body;
     bool submitted = false;
     long ran = 0, ran_on = -1, canc = 0, fin = 0;   // fin: 1 coroutine completed after a run, 2 after a cancel
     std::unique_ptr<future<int>> fut, afut;
@@ -162,8 +185,12 @@ struct Rec {
 
 static thread_pool *g_pool = nullptr;
 static long g_destroyed = 0;
-static long g_stops = 0;                       // submitted jobs whose body calls stop(): not yet finished nor dropped
 static thread_local Rec *t_pending = nullptr;  // submission whose enqueue() has not executed yet
+static thread_local int t_api = 0;             // > 0: the thread is inside a pool call made by the scenario (not in the worker loop)
+struct ApiScope {
+    ApiScope() { t_api++; }
+    ~ApiScope() { t_api--; }
+};
 
 static long pool_locked() {
     if (!g_pool) return 0;
@@ -186,42 +213,90 @@ void pctl::check_lock_free() {
 
 static void check_destroyed() {
     if (!g_destroyed) return;
-    // a thread is about to lock the mutex of a pool whose destructor has returned: report instead of hanging on freed memory
+    // the thread is about to use a pool whose destructor has returned: report instead of hanging on freed memory
     vh::print_obs({888, (long)pctl::t_id});
     std::printf("END\n");
     std::fflush(stdout);
     std::_Exit(42);
 }
+void pctl::after_wake() { check_destroyed(); }
 
 static void hook_point(const char *id) {
     if (pctl::t_id < 0 || !pctl::G.active) return;
-    if (std::strcmp(id, "p_lock")) return;   // points of other components (future, awaiter) are not scheduling points here
-    check_destroyed();
+    bool lock = !std::strcmp(id, "p_lock");
+    if (!lock && std::strcmp(id, "p_peek")) return;   // points of other components (future, awaiter) are not scheduling points here
     pctl::yield(pctl::AtPoint, ctl::point_code(id), nullptr);
     check_destroyed();
-    if (t_pending) {
+    if (lock && t_pending) {
         t_pending->submitted = true;
         t_pending = nullptr;
     }
 }
 
 static void submit(Rec *r);
+static async<void> body_coro(Rec *r);
+
+static void start_now(async<void> &&c) {
+    auto sp = c.detach();
+    auto h = sp.pop();
+    h.resume();
+}
 
 static void on_run(Rec *r) {
     r->ran++;
     r->ran_on = pctl::t_id;
     vh::print_obs({100, r->label, 1, (long)pctl::t_id, pool_locked()});
-    if (r->body == 1) submit(r->nested);
-    else if (r->body == 2) {
-        g_pool->stop();
-        g_stops--;
-    }
+    if (!r->body.empty()) start_now(body_coro(r));
 }
 
 static void on_cancel(Rec *r) {
     r->canc++;
     vh::print_obs({100, r->label, 2, (long)pctl::t_id, pool_locked()});
-    if (r->body == 2) g_stops--;
+}
+
+// The body of a job: a list of pool operations.  It runs with the coroutine ready queue of the thread switched
+// off, so that a coroutine cancelled by one of the operations is resumed at once and not after the job (the
+// ready queue is C05's subject; here only the step in which the cancellation is delivered matters).
+static async<void> body_coro(Rec *r) {
+    auto *saved = std::exchange(coro_queue::instance, nullptr);
+    for (size_t i = 0; i < r->body.size(); i++) {
+        Act &a = r->body[i];
+        if (a.what == 0) {
+            submit(a.rec);
+        } else if (a.what == 1) {
+            ApiScope api;
+            g_pool->stop();
+        } else if (a.what == 2) {
+            ApiScope api;
+            bool res = a.arg == 0 ? thread_pool::current::is_stopped() : thread_pool::current::any_enqueued();
+            vh::print_obs({100, (long)res, 10 + a.arg, (long)pctl::t_id, pool_locked()});
+        } else {
+            Rec *hr = a.rec;   // its body is the rest of this body: the loop simply goes on after the hop
+            coro_queue::instance = saved;
+            bool ok = false;
+            try {
+                t_pending = hr;
+                co_await thread_pool::current();
+                ok = true;
+            } catch (const await_canceled_exception &) {
+            }
+            saved = std::exchange(coro_queue::instance, nullptr);
+            if (t_pending == hr) t_pending = nullptr;   // already stopped: no hop
+            if (hr->submitted) {
+                if (ok) {
+                    hr->ran++;
+                    hr->ran_on = pctl::t_id;
+                    hr->fin = 1;
+                    vh::print_obs({100, hr->label, 1, (long)pctl::t_id, pool_locked()});
+                } else {
+                    on_cancel(hr);
+                    hr->fin = 2;
+                    break;
+                }
+            }
+        }
+    }
+    coro_queue::instance = saved;
 }
 
 // owned by function closures and by the run(async) coroutine frame: tells whether the closure ran or died un-run
@@ -259,7 +334,7 @@ struct Peek {   // records the handle, does not suspend
 static async<void> hop_coro(Rec *r) {
     bool ok = false;
     try {
-        t_pending = r;   // (a coroutine started from a coroutine job is deferred by the ready queue)
+        t_pending = r;
         co_await *g_pool;
         ok = true;
     } catch (const await_canceled_exception &) {
@@ -269,22 +344,22 @@ static async<void> hop_coro(Rec *r) {
     r->fin = ok ? 1 : 2;
 }
 
+// resume(suspend_point) / pool(awaitable): the coroutine is resumed by a worker's job, or (pool stopped) by the
+// thread that destroys the closure, i.e. inside a stop()/enqueue call of the scenario
 static async<void> res_coro(Rec *r) {
     co_await Grab{r};
     r->h = nullptr;
-    on_run(r);
-    r->fin = 1;
+    bool ok = t_api == 0;
+    if (ok) on_run(r);
+    else on_cancel(r);
+    r->fin = ok ? 1 : 2;
 }
 
 static async<void> awt_coro(Rec *r) {
     co_await Peek{r};
-    bool ok = false;
-    try {
-        co_await (*g_pool)(*r->afut);
-        ok = true;
-    } catch (const await_canceled_exception &) {
-    }
+    co_await (*g_pool)(*r->afut);
     r->h = nullptr;
+    bool ok = t_api == 0;
     if (ok) on_run(r);
     else on_cancel(r);
     r->fin = ok ? 1 : 2;
@@ -295,14 +370,8 @@ static async<int> async_job(Guard g) {
     co_return 7;
 }
 
-static void start_now(async<void> &&c) {
-    auto sp = c.detach();
-    auto h = sp.pop();
-    h.resume();
-}
-
 static void submit(Rec *r) {
-    if (r->body == 2) g_stops++;
+    ApiScope api;
     t_pending = r;
     switch (r->kind) {
         case 0: hop_coro(r).detach(); break;   // discarded suspend point: the coroutine starts the library's way
@@ -346,40 +415,60 @@ static void run_case(const vh::Case &cs) {
     long n = 1;
     int maxcl = 0;
     struct Op {
-        int what;   // 2 submit, 3 stop
+        int what;   // 2 submit, 3 stop, 4 worker()
         Rec *rec;
     };
     std::vector<Op> progs[3];
-    std::vector<std::unique_ptr<Rec>> tops, nests;
+    std::vector<std::unique_ptr<Rec>> recs;   // every record, owned
+    std::vector<Rec *> tops;
     std::vector<long> sched;
+    long nk = 0;
     auto kind_ok = [](long k) { return k >= 0 && k <= 5; };
+    auto new_rec = [&](long label, long kind) {
+        recs.emplace_back(new Rec());
+        recs.back()->label = label;
+        recs.back()->kind = kind;
+        return recs.back().get();
+    };
     for (auto &op : cs.ops) {
         if (op.empty()) continue;
         if (op[0] == 1 && op.size() == 2) {
             if (op[1] >= 1 && op[1] <= 4) n = op[1];
-        } else if (op[0] == 2 && op.size() == 5) {
-            long cl = op[1], k = op[2], b = op[3], bk = op[4];
-            if (!kind_ok(k) || !kind_ok(bk)) continue;
-            if (cl < 0 || cl > 2 || b < 0 || b > 2 || tops.size() >= 40) continue;
+        } else if (op[0] == 2 && op.size() >= 3) {
+            long cl = op[1], k = op[2];
+            if (!kind_ok(k)) continue;
+            // body: 0..5 submit, 6 stop (last), 7/8 query, 9 co_await current(); at most 6 actions
+            bool ok = true;
+            size_t na = op.size() - 3;
+            if (na > 6) ok = false;
+            for (size_t i = 0; ok && i < na; i++) {
+                long z = op[3 + i];
+                if (z < 0 || z > 9) ok = false;
+                if (z == 6 && i + 1 != na) ok = false;
+            }
+            if (!ok) continue;
+            if (cl < 0 || cl > 2 || tops.size() >= 40) continue;
             long j = (long)tops.size();
-            bool bare = (k == 1 || k == 4);
-            auto r = std::make_unique<Rec>();
-            auto ne = std::make_unique<Rec>();
-            r->label = j;
-            r->kind = k;
-            r->body = (b == 2 && bare) ? 0 : b;
-            r->bkind = bk;
-            ne->label = 100 + j;
-            ne->kind = bk;
-            r->nested = ne.get();
-            progs[cl].push_back({2, r.get()});
-            tops.push_back(std::move(r));
-            nests.push_back(std::move(ne));
+            Rec *r = new_rec(j, k);
+            for (size_t i = 0; i < na; i++) {
+                long z = op[3 + i];
+                long lbl = 100 + 10 * j + (long)i;
+                if (z <= 5) r->body.push_back({0, 0, new_rec(lbl, z)});
+                else if (z == 6) r->body.push_back({1, 0, nullptr});
+                else if (z == 7 || z == 8) r->body.push_back({2, z - 7, nullptr});
+                else r->body.push_back({3, 0, new_rec(lbl, 0)});
+            }
+            // a hop continuation's body is the rest of the body it interrupts
+            for (size_t i = 0; i < r->body.size(); i++)
+                if (r->body[i].what == 3) r->body[i].rec->body.assign(r->body.begin() + i + 1, r->body.end());
+            progs[cl].push_back({2, r});
+            tops.push_back(r);
             maxcl = std::max<int>(maxcl, (int)cl);
-        } else if (op[0] == 3 && op.size() == 2) {
+        } else if ((op[0] == 3 || op[0] == 4) && op.size() == 2) {
             long cl = op[1];
-            if (cl < 0 || cl > 2) continue;
-            progs[cl].push_back({3, nullptr});
+            if (cl < 0 || cl > 2 || nk >= 30) continue;
+            nk++;
+            progs[cl].push_back({(int)op[0], nullptr});
             maxcl = std::max<int>(maxcl, (int)cl);
         } else if (op[0] == 9) {
             sched.insert(sched.end(), op.begin() + 1, op.end());
@@ -390,7 +479,6 @@ static void run_case(const vh::Case &cs) {
 
     // ---- set up ----
     g_destroyed = 0;
-    g_stops = 0;
     pctl::G.reset(total, m);
     auto &hk = cocls::verif::get_hooks();
     hk.point = &hook_point;
@@ -401,14 +489,18 @@ static void run_case(const vh::Case &cs) {
         clients.emplace_back(&pctl::thread_main, i, std::function<void()>([&, i] {
             for (auto &o : progs[i]) {
                 if (o.what == 2) submit(o.rec);
-                else g_pool->stop();
+                else if (o.what == 3) {
+                    ApiScope api;
+                    g_pool->stop();
+                } else g_pool->worker();
             }
             if (i == 0) {
                 pctl::yield(pctl::Blocked, 9, [&] {
                     for (int c = 1; c < m; c++)
                         if (pctl::G.ths[c]->state != pctl::Finished) return false;
-                    return g_stops == 0;
+                    return true;
                 });
+                ApiScope api;
                 thread_pool *p = g_pool;
                 delete p;
                 g_pool = nullptr;
@@ -428,7 +520,7 @@ static void run_case(const vh::Case &cs) {
         // init phase: every thread runs up to its first scheduling point (no trace entry)
         for (int i = 0; i < total; i++) give(i);
         size_t si = 0;
-        size_t limit = sched.size() + 600;
+        size_t limit = sched.size() + 200000;   // never reached: every run is finite (PoolTerm.v)
         for (size_t step = 0; step < limit; step++) {
             std::vector<int> en;
             for (int i = 0; i < total; i++) {
@@ -457,9 +549,12 @@ static void run_case(const vh::Case &cs) {
     } else {
         for (auto &c : clients) c.join();
     }
-    // ---- observations: one line per submission that reached enqueue() ----
-    auto line = [&](Rec *r) {
-        if (!r->submitted) return;
+    // ---- observations: one line per submission that reached enqueue(), in label order ----
+    std::vector<Rec *> order;
+    for (auto &r : recs) order.push_back(r.get());
+    std::sort(order.begin(), order.end(), [](Rec *a, Rec *b) { return a->label < b->label; });
+    for (Rec *r : order) {
+        if (!r->submitted) continue;
         long ws = 0;
         switch (r->kind) {
             case 0: case 1: case 4: ws = r->fin; break;
@@ -467,9 +562,7 @@ static void run_case(const vh::Case &cs) {
             case 3: ws = r->ran ? 1 : (r->canc ? 2 : 0); break;
         }
         vh::print_obs({200, r->label, r->kind, r->ran, r->canc, ws, r->ran_on});
-    };
-    for (auto &r : tops) line(r.get());
-    for (auto &r : nests) line(r.get());
+    }
     vh::print_obs({300, g_destroyed, (long)m, (long)total});
     if (deadlock) {
         std::printf("END\n");
@@ -479,14 +572,12 @@ static void run_case(const vh::Case &cs) {
     hk.point = nullptr;
     pctl::G.active = false;
     // ---- clean up: a forgotten coroutine is still suspended, a forgotten future is still pending ----
-    auto clean = [&](Rec *r) {
+    for (auto &r : recs) {
         if (r->h && !r->fin) r->h.destroy();
         r->h = nullptr;
         if (r->fut && !r->fut->ready()) (void)r->fut.release();
         if (r->afut && !r->afut->ready()) (void)r->afut.release();
-    };
-    for (auto &r : tops) clean(r.get());
-    for (auto &r : nests) clean(r.get());
+    }
 }
 
 int main(int argc, char **argv) {
